@@ -168,7 +168,8 @@ CFG = {
     "n": {"quick": 1000, "thorough": 20000},
     "exhaustive": {"quick": False, "thorough": False},
     "shrink": False,
-    "rule": "corpus (hand-built: redefinition, free with stable generation, added object + moved root, /Prev to itself, /Prev beyond the file, two sections "
+    "rule": "`zero` family (follow-up to seed C04_11): object number 0 as an ORDINARY in-use object and boundary object numbers, added or redefined in the base or in an update, classic table and cross-reference stream (type 1 and type 2 rows), all 180 combinations; "
+            "corpus (hand-built: redefinition, free with stable generation, added object + moved root, /Prev to itself, /Prev beyond the file, two sections "
             "pointing at each other; smallest generated instances of both known findings) + per seed one history from the spec-side generator: base "
             "revision as in C03 (any layout) followed by 1-3 (thorough: up to 7 for a third of the cases) incremental updates, each with 1-3 edits (redefine "
             "/ free / re-add an existing number, each number at most once per revision) plus 0-2 new objects (optionally in a new object stream), its own "
